@@ -138,6 +138,29 @@ ROUND7 = {
  "C20": "Round 7: the derive-expanded AST is what the query pipelines type-check.",
 }
 
+ROUND8 = {
+ "C01": "Round 8: operands keep their positions through shadowing lets; runtime print helpers take their text as data; no rebuilding loop of the term passes filters its elements.",
+ "C02": "Round 8: the Go printer never breaks a line before an operator; a call result that contains a closure is retyped (shared with C08).",
+ "C03": "Round 8: the equation with the expected type is unconditional; generic functions as values name existing instances (shared with C07).",
+ "C04": "Round 8: the dyn-dispatch predicate leaves the receiver out, so vtable signature types are collected.",
+ "C05": "Round 8: patterns are resolved in let and match arms only; a nested scope starts from all binders of its parent, newest first.",
+ "C06": "Round 8: no component of a tuple scrutinee is filtered away; string patterns lose exactly their delimiters (shared with C11).",
+ "C07": "Round 8: a typed function has its own type parameters in scope; mono's unification compares every component unconditionally.",
+ "C08": "Round 8: packages are linked dependency-first (shared with C14); a go statement in value position keeps its mode (shared with C01).",
+ "C09": "Round 8: a translated child is used once, never cloned; no statement of a block is left out of the let chain.",
+ "C10": "Round 8: checker and builder read a literal at one type; operators are rebuilt as themselves in every pass.",
+ "C11": "Round 8: number tokens are unsigned; the primary-form parser is entered from the Pratt loop only.",
+ "C12": "Round 8: token splitting and trivia attachment (existing lossless-tree clauses reported both seeds).",
+ "C13": "Round 8: hash-ordered containers on output paths (existing clause reported both seeds).",
+ "C14": "Round 8: check and build run the match compiler in the same environment; an interface hash is filed under its own package.",
+ "C15": "Round 8: no serde default on the fields of the artifact units: a missing header is a parse error.",
+ "C16": "Round 8: every import test that gives up reports; impls are filed under the resolved trait name.",
+ "C17": "Round 8: replacing an operator constraint counts as solver progress; mono's unification compares results unconditionally (shared with C07).",
+ "C18": "Round 8: the derive attribute's bracket is sought from the front; struct patterns name structs (shared with C06).",
+ "C19": "Round 8: struct, enum and extern type names share one duplicate test; match arms have scopes of their own (shared with C05).",
+ "C20": "Round 8: nodes built per element get pointers of their own; completion asks about the namespace as written.",
+}
+
 CLAIMED = {
  "C01": dict(
    text="Semantic preservation is NOT decided. Decided on every arm of every pass: pass totality (no catch-all over the input IR, anchor "
@@ -324,6 +347,8 @@ def main():
                 c["text"] = c["text"] + " " + HUNT3[pid]
             if pid in ROUND7:
                 c["text"] = c["text"] + " " + ROUND7[pid]
+            if pid in ROUND8:
+                c["text"] = c["text"] + " " + ROUND8[pid]
             m["checks"].append({
                 "property_id": pid,
                 "quick_cmd": f"./check {pid} --tier quick",
